@@ -15,6 +15,10 @@ inside a forked child, so nothing global is patched in the harness process.  Eve
 A failing call is not performed (a failing write leaves half of the data behind, a failing close still releases the
 descriptor).  `time.sleep` is a counted no-op.  The child streams its step trace through a pipe, so the parent sees
 the steps executed before a kill.
+
+Drivers: `run_forked(fn, modules, at, fault, prepare=None)` (any fault; always reaps the child) and
+`run_inproc(fn, modules, at, fault)` (non-kill faults only; proxies installed in this process and always removed).
+Both return a ChildResult(outcome 'ok'|'exc'|'killed', steps [(op, detail, has_partial)], exc, ret, sleeps).
 """
 from __future__ import annotations
 
